@@ -267,6 +267,9 @@ func genC06Value(t *rapid.T, local []string) string {
 	if !strings.HasPrefix(v, "/") && !strings.HasPrefix(v, "@{") {
 		v = "/" + v
 	}
+	for strings.Contains(v, "//") {
+		v = strings.ReplaceAll(v, "//", "/") // nobody writes '///opt/': AppArmor collapses the run in a variable value but not across the alternation of the nested literal
+	}
 	if strings.Trim(v, "/") == "" {
 		v = "/opt/x" // the root directory is not an executable
 	}
